@@ -36,6 +36,7 @@ functions that do not actually use what is declared in between) are counted, not
 import importlib.util
 import os
 import re
+import time
 
 import common
 import langcheck
@@ -49,7 +50,7 @@ TRUSTED_EXTRA = [
 ]
 ASSUMPTIONS = [
     "process handles: `command(..)` values are routed through every position (crash oracle only; the model ends such runs with Unsupported); process_result values and read_line are not exercised here (C15/C16/C17)",
-    "resource exhaustion (implementation Stack overflow / model fuel) is not a crash and is never compared",
+    "resource exhaustion (implementation `Stack overflow` error, arena out of memory = `memory allocation of N bytes failed` abort with the harness's 256 MiB arena, model fuel) is not a crash and is never compared; such runs are counted in extra.resource_exhaustion_runs",
     "inputs are programs of the sizes generated here; native stack overflow of the parser/checker on huge inputs is C08's subject",
 ]
 COQ_TIMEOUT = 1500
@@ -75,7 +76,7 @@ PROC_M = [("arg", ['"x"']), ("cwd", ['"."']), ("env", ['"A"', '"B"']), ("stdin_t
           ("stdin_null", []), ("stdout_capture", []), ("stdout_inherit", []), ("stdout_null", []),
           ("stderr_capture", []), ("stderr_inherit", []), ("stderr_null", []), ("timeout_ms", ["5"])]
 RESULT_M = [("success", []), ("exit_code", []), ("stdout", []), ("stderr", [])]
-ALL_METHODS = STRING_M + ARRAY_M + NUMBER_M + PROC_M + RESULT_M + [("nosuch", [])]
+ALL_METHODS = STRING_M + [m for m in ARRAY_M if m[0] != "len"] + NUMBER_M + PROC_M + RESULT_M + [("nosuch", [])]
 
 
 def uses():
@@ -185,7 +186,8 @@ def product_cases():
                 src = build(use, needs_var)
                 if src is None:
                     continue
-                cases.append(("P/%s/%s/%s" % (vname, rtag, utag), src))
+                cases.append((("P/%s/%s/%s" % (vname, rtag, utag)).replace(" ", "_"), src))
+    assert len(set(c for c, _ in cases)) == len(cases), "product ids must be unique"
     return cases
 
 
@@ -342,10 +344,16 @@ def site_of_panic(text):
     return "%s|%s" % (f, msg), None
 
 
+MODEL_TIMEOUTS = [150, 50, 20, 8]
+
+
 def run_model_safe(env, name, impl_recs, order, depth=0):
-    """langrun.run_model with a larger native stack and a memory cap (deeply recursive generated
-    programs need thousands of nested calls of the extracted evaluator).  If the model process still dies, the shard is split until
-    the offending case is isolated; that case gets no model record (inconclusive)."""
+    """langrun.run_model with a larger native stack, a memory cap and a time limit (the
+    extracted evaluator computes binary64 on binary-positive numbers and can be thousands of
+    times slower than the interpreter on a compute-heavy generated program).  When the model
+    process dies or runs out of time the shard is split in four, with a shorter limit, down
+    to single cases; what still fails gets no model record (counted as `no-model-record`,
+    never compared, still subject to the crash oracle)."""
     inp = os.path.join(env.work, name + ".model.in")
     outp = os.path.join(env.work, name + ".model")
     with open(inp, "w") as f:
@@ -357,16 +365,20 @@ def run_model_safe(env, name, impl_recs, order, depth=0):
     # 1 GiB of stack, 6 GiB of address space: a runaway case kills only this process
     cmd = "ulimit -s 1048576 2>/dev/null; ulimit -v 6291456 2>/dev/null; exec '%s' lang %s '%s' '%s'" % (
         common.NSMODEL, langrun.eps_hex(), inp, outp)
-    rc, out = common.sh(["bash", "-c", cmd], timeout=1200)
+    for attempt in range(8):
+        rc, out = common.sh(["bash", "-c", cmd], timeout=MODEL_TIMEOUTS[min(depth, len(MODEL_TIMEOUTS) - 1)])
+        if rc not in (126, 127) and os.path.exists(common.NSMODEL):
+            break
+        time.sleep(5)        # the model executable is being relinked by a concurrent check
     if rc == 0:
         return langrun.parse_records(open(outp).read().splitlines())
-    if len(order) <= 1 or depth > 16:
+    if len(order) <= 1 or depth >= len(MODEL_TIMEOUTS) + 4:
         return {}
-    mid = len(order) // 2
-    a = run_model_safe(env, name + "a", impl_recs, order[:mid], depth + 1)
-    b = run_model_safe(env, name + "b", impl_recs, order[mid:], depth + 1)
-    a.update(b)
-    return a
+    k = max(1, (len(order) + 3) // 4)
+    res = {}
+    for j in range(0, len(order), k):
+        res.update(run_model_safe(env, "%s_%d" % (name, j // k), impl_recs, order[j:j + k], depth + 1))
+    return res
 
 
 def run_wf(env, name, impl_recs, order):
@@ -395,7 +407,23 @@ def run_wf(env, name, impl_recs, order):
     return res
 
 
-def judge(cid, src, rec, mrec, wf, out, release=False):
+def native_stderr(env, src, cfg, release):
+    """first lines of what the harness prints when it dies natively on this program"""
+    inp = os.path.join(env.work, "native.in")
+    outp = os.path.join(env.work, "native.out")
+    langrun.write_cases(inp, [("native", src)])
+    if os.path.exists(outp):
+        os.remove(outp)
+    rc, out = common.sh([common.harness_bin(release), "lang", inp, outp, cfg], timeout=120,
+                        env={"RUST_BACKTRACE": "0"})
+    lines = [l for l in out.splitlines() if not l.startswith(("   ", "stack backtrace", "note:")) and
+             not re.match(r"^\s*\d+:", l)]
+    # program output (`shout` also prints) comes first: keep what looks like a runtime message
+    keep = [l for l in lines if re.search(r"alloc|memory|overflow|panick|abort|signal|fatal|SIG", l)]
+    return " / ".join(keep[-3:])[:300]
+
+
+def judge(env, cid, src, rec, mrec, wf, out, release=False):
     """Applies the oracle and the ties to one case; appends to out[...]"""
     prof = "release" if release else "debug"
     if rec.get("crash") and rec["crash"][0] == "frontend":
@@ -409,6 +437,13 @@ def judge(cid, src, rec, mrec, wf, out, release=False):
     crashed = langcheck.crashed(rec)
     w = wf.get(cid) or {}
     scoped_ok = {"n": w.get("scoped_n"), "p": w.get("scoped_p")}
+    if crashed and all(t.startswith("crash") for _, t in crashed):
+        # a native death: out of memory in the arena is resource exhaustion (like Stack overflow
+        # / model fuel), not a crash in the sense of the property
+        msg = native_stderr(env, src, crashed[0][0], release)
+        if "memory allocation of" in msg:
+            out["resource_exhaustion"] = out.get("resource_exhaustion", 0) + 1
+            crashed = []
     if crashed:
         cfg, text = crashed[0]
         native = text.startswith("crash") or text.startswith("timeout")
@@ -470,29 +505,49 @@ def judge(cid, src, rec, mrec, wf, out, release=False):
                     out["scoped"][mc + scoped_ok[mc]] = out["scoped"].get(mc + scoped_ok[mc], 0) + 1
 
 
-def run_stream(env, name, cases, out, model=True, release=False):
+def run_stream(env, name, cases, out, model=True, release=False, reuse=None):
+    """-> (impl records, model records, checker records); `reuse` = (model records, checker
+    records) of an earlier run of the same cases (the release pass reuses the debug pass's:
+    the model does not depend on the build profile)."""
     order = [c for c, _ in cases]
     srcs = dict(cases)
     recs = langrun.run_impl(env, name, cases, CFGS, release=release, timeout=300)
-    mrecs = {}
-    if model:
+    mrecs, wf = {}, {}
+    if reuse is not None:
+        mrecs, wf = reuse
+    elif model:
         mrecs = run_model_safe(env, name, recs, order)
-    wf = run_wf(env, name, recs, order) if model else {}
+        wf = run_wf(env, name, recs, order)
+    lost = [cid for cid in order if cid not in recs]
+    if lost:
+        raise RuntimeError("%d of %d cases of shard %s have no implementation record (first: %s)" % (len(lost), len(order), name, lost[0]))
     for cid in order:
         rec = recs.get(cid)
         if rec is None:
             continue
         out["evaluations"] += 1
-        judge(cid, srcs[cid], rec, mrecs.get(cid) if model else None, wf, out, release)
+        judge(env, cid, srcs[cid], rec, mrecs.get(cid) if (model or reuse is not None) else None, wf, out, release)
         if rec.get("accepted"):
             ends = tuple(sorted(set(langrun.ending_class(e) for e, _ in rec["runs"].values())))
             out["endings"][",".join(ends)] = out["endings"].get(",".join(ends), 0) + 1
             if ends != ("ok",):
                 out["nontrivial"].add(common.chash(srcs[cid]))
-    return recs
+    return recs, mrecs, wf
+
+
+def private_workdir(env):
+    """Env wipes BUILD/work/C06 on construction: a second `bin/check C06` started while this
+    one runs (the coordinator's mutation tests do that) would delete our files mid-run."""
+    import shutil
+    import atexit
+    d = "%s.%d" % (env.work.rstrip("/"), os.getpid())
+    os.makedirs(d, exist_ok=True)
+    env.work = d
+    atexit.register(lambda: shutil.rmtree(d, ignore_errors=True))
 
 
 def correspond(env, searching=False, model=True):
+    private_workdir(env)
     quick = env.tier == "quick"
     out = {"evaluations": 0, "accepted": 0, "rejected": 0, "failures": [], "disagreements": [], "compare": {},
            "endings": {}, "crash_keys": {}, "nontrivial": set(), "scoped": {}}
@@ -509,11 +564,13 @@ def correspond(env, searching=False, model=True):
     gen, gstats = generated_cases(env, ngen)
     streams = [("shapes", shapes), ("product", prod), ("generated", gen)]
     per_stream = {}
+    cache = {}
     for name, cases in streams:
         before = (out["evaluations"], out["accepted"])
-        shard = 4000
+        shard = 4000 if name != "generated" else 1000
         for s0 in range(0, len(cases), shard):
-            run_stream(env, "%s%d" % (name, s0), cases[s0:s0 + shard], out, model=model)
+            _, m_, w_ = run_stream(env, "%s%d" % (name, s0), cases[s0:s0 + shard], out, model=model)
+            cache[(name, s0)] = (m_, w_)
         per_stream[name] = {"cases": out["evaluations"] - before[0], "accepted": out["accepted"] - before[1]}
     profiles = ["debug"]
     if not quick:
@@ -522,8 +579,10 @@ def correspond(env, searching=False, model=True):
             raise RuntimeError("release harness build failed")
         profiles.append("release")
         for name, cases in streams:
-            for s0 in range(0, len(cases), 4000):
-                run_stream(env, "r%s%d" % (name, s0), cases[s0:s0 + 4000], out, model=model, release=True)
+            shard = 4000 if name != "generated" else 1000
+            for s0 in range(0, len(cases), shard):
+                run_stream(env, "r%s%d" % (name, s0), cases[s0:s0 + shard], out, model=model, release=True,
+                           reuse=cache.get((name, s0)) if model else None)
     for cid, src in (shapes[:2] + prod[1000:1002]):
         samples.append({"id": cid, "program": src})
     return {
@@ -540,11 +599,13 @@ def correspond(env, searching=False, model=True):
                   "streams": per_stream, "accepted": out["accepted"], "rejected_by_checker": out["rejected"],
                   "ending_histogram_accepted": out["endings"], "model_compare": out["compare"],
                   "crash_keys": out["crash_keys"], "wf_scoped_histogram": out["scoped"],
+                  "resource_exhaustion_runs": out.get("resource_exhaustion", 0),
                   "generator_stats": gstats, "profiles": profiles, "configurations": CFGS},
     }
 
 
 def replay(env, payload):
+    private_workdir(env)
     common.refresh_tables()
     common.build_nsmodel()
     case = payload.get("case") or (payload.get("disagreements") or [{}])[0]
@@ -554,7 +615,7 @@ def replay(env, payload):
         return 1
     out = {"evaluations": 0, "accepted": 0, "rejected": 0, "failures": [], "disagreements": [], "compare": {},
            "endings": {}, "crash_keys": {}, "nontrivial": set(), "scoped": {}}
-    recs = run_stream(env, "replay", [("replay", src)], out, model=True)
+    recs, _, _ = run_stream(env, "replay", [("replay", src)], out, model=True)
     rec = recs.get("replay", {})
     print("program:\n%s" % src)
     print("accepted: %s" % rec.get("accepted"))
